@@ -397,16 +397,39 @@ func runHist(id string, c *histCase) {
 	}
 }
 
+func wordsStr(ws []string) string {
+	if len(ws) == 0 {
+		return "_"
+	}
+	return strings.ReplaceAll(hx.HexListS(ws), ",", "+")
+}
+
 func runSW(id string, q, add string) {
 	words := query.SplitWords(q)
 	atq := aapp.VerifAddToQuery(q, add)
 	back := query.SplitWords(atq)
-	hx.Printf("obs %s words=%s atq=%s back=%s\n", id, hx.HexListS(words), hx.HexS(atq), hx.HexListS(back))
+	// the front end's own splitter, on the old query and on the query the builder made
+	p0, g0 := aapp.VerifParseQueryString(q)
+	p1, g1 := aapp.VerifParseQueryString(atq)
+	hx.Printf("obs %s words=%s atq=%s back=%s pq=%s/%s pqa=%s/%s\n", id, hx.HexListS(words), hx.HexS(atq), hx.HexListS(back),
+		hx.HexS(p0), hx.HexListS(g0), hx.HexS(p1), hx.HexListS(g1))
 	first := "-"
 	if len(back) > 0 {
 		first = hx.HexS(back[0])
 	}
-	hx.Printf("sobs %s first=%s n=%d\n", id, first, len(back)-len(words))
+	// what reaches the storage server (fetchCompareResults: prefix + " " + query), split into words
+	var sent []string
+	for _, g := range g1 {
+		if p1 != "" {
+			g = p1 + " " + g
+		}
+		sent = append(sent, wordsStr(query.SplitWords(g)))
+	}
+	sentS := "-"
+	if len(sent) > 0 {
+		sentS = strings.Join(sent, ";")
+	}
+	hx.Printf("sobs %s first=%s n=%d sent=%s\n", id, first, len(back)-len(words), sentS)
 }
 
 func runLine(line string) {
@@ -896,6 +919,39 @@ func main() {
 			}
 		}
 		rec(nil)
+	}
+	// the builder's word through the front end's own splitter: values with quotes, backslashes,
+	// blanks, tabs, "|" and the word "vs", in front of queries with and without prefix and groups
+	oldQs := []string{"", "x:y", "a:b vs c:d", "p:q | a:b vs c:d", `k:"d e" vs f:g`, `n:"a|b"`, "vs", "| x", "a:b vs", `q:"x vs y" | r:s`, "a:b  c:d\tvs e:f"}
+	if shard == 0 {
+		alpha := []byte{'a', ' ', '"', '\\', '|'}
+		maxLen := 3
+		if hx.Tier() == "thorough" {
+			maxLen = 5
+		}
+		n := 0
+		var rec func(cur []byte)
+		rec = func(cur []byte) {
+			n++
+			emit(swLine(next(), oldQs[n%len(oldQs)], "k:"+string(cur)))
+			if len(cur) < maxLen {
+				for _, a := range alpha {
+					rec(append(cur[:len(cur):len(cur)], a))
+				}
+			}
+		}
+		rec(nil)
+	}
+	valToks := []string{`19"`, "rack", "vs", "|", "the", `"big"`, "one", `\`, `a\"b`, `"`, "5'", `x"y`, "tower", `\\`}
+	for n := hx.N(800, 30000) / nshards; n > 0; n-- {
+		var b strings.Builder
+		for k := 1 + r.Intn(5); k > 0; k-- {
+			b.WriteString(hx.Pick(r, valToks))
+			if k > 1 {
+				b.WriteString(hx.Pick(r, []string{" ", " ", "\t", "", "  "}))
+			}
+		}
+		emit(swLine(next(), hx.Pick(r, oldQs), hx.Pick(r, cfgKeys)+":"+b.String()))
 	}
 	alpha2 := []byte("ab:<>| \t\"\\")
 	for n := hx.N(3000, 160000) / nshards; n > 0; n-- {
